@@ -744,7 +744,7 @@ class Response(StreamResponse):
     async def _do_start_compression(self, coding: ContentCoding) -> None:
         if self._chunked or isinstance(self._body, Payload):
             return await super()._do_start_compression(coding)
-        if coding is ContentCoding.identity:
+        if coding is ContentCoding.identity or self._body is None:
             return
         # Instead of using _payload_writer.enable_compression,
         # compress the whole body
@@ -753,7 +753,6 @@ class Response(StreamResponse):
             max_sync_chunk_size=self._zlib_executor_size,
             executor=self._zlib_executor,
         )
-        assert self._body is not None
         self._compressed_body = (
             await compressor.compress(self._body) + compressor.flush()
         )
